@@ -163,6 +163,8 @@ export async function check(group, records) {
   const base = { gid: group.gid, vid: v.vid, feature: group.feature, nontrivial: true };
   if (!rec || rec.status !== 'ok') return [inconclusive({ ...base, reason: `transform status ${rec && rec.status}` })];
   if (rec.n_err > 0) return [violated({ ...base, oracle: 'no diagnostic', sig: `C20/unexpected-diagnostic/${rec.diags[0].msg.replace(/\W+/g, '_').slice(0, 40)}`, detail: rec.diags })];
+  // an output that is not a program delivers nothing to the runtime (the input did parse)
+  if (rec.exec == null && /does not parse/.test(String(rec.exec_declined))) return [violated({ ...base, oracle: 'the output module can be loaded', sig: `C20/output-does-not-parse`, detail: short(rec.exec_declined, 200) })];
   if (rec.exec == null) return [inconclusive({ ...base, reason: `exec declined: ${rec.exec_declined}` })];
   // capture calls to non-vue callees
   const seen = [];
